@@ -3,6 +3,8 @@ package main
 import (
 	"errors"
 	"fmt"
+	"reflect"
+	"sort"
 	"runtime/metrics"
 	"strings"
 	"sync"
@@ -90,6 +92,34 @@ type World struct {
 	Faults []Fault
 	Fired  map[string]int // fault kinds actually fired (merged after join)
 	Pre    starlark.StringDict
+
+	// Simple non-caching module loader (C07): when Mods is set, every thread of
+	// this world can load them; LoadSame executes a module on the importing
+	// thread itself (its steps count against that thread's budget), otherwise on
+	// a fresh thread.
+	Mods     []Module
+	D        Dialect
+	LoadSame bool
+}
+
+func (w *World) loadModule(th *starlark.Thread, module string) (starlark.StringDict, error) {
+	for _, m := range w.Mods {
+		if m.Name != module {
+			continue
+		}
+		src := strings.Join(m.Units, "")
+		pre := w.Pre
+		if pre == nil {
+			pre = w.Predeclared()
+		}
+		if w.LoadSame {
+			return starlark.ExecFileOptions(w.D.FileOptions(), th, module, src, pre)
+		}
+		lc := w.NewCtx("load:" + module)
+		lc.Th.SetMaxExecutionSteps(100000)
+		return starlark.ExecFileOptions(w.D.FileOptions(), lc.Th, module, src, pre)
+	}
+	return nil, fmt.Errorf("no such module %q", module)
 }
 
 // TaskCtx is the per-thread host state. It is touched only by the goroutine
@@ -280,6 +310,9 @@ func (w *World) NewCtx(name string) *TaskCtx {
 		c.ClockCalls++
 		return time.Unix(0, c.ClockBase+c.ClockCalls*c.ClockDelta).UTC(), nil
 	})
+	if len(w.Mods) > 0 {
+		c.Th.Load = w.loadModule
+	}
 	w.Ctxs = append(w.Ctxs, c)
 	return c
 }
@@ -568,62 +601,132 @@ func (w *World) Predeclared() starlark.StringDict {
 	return env
 }
 
-// goMutate performs a mutation through the public Go API.
+// goMutate performs a mutation through the public Go API. The method is found
+// by (case-insensitive) name with reflection and its arguments are synthesised
+// from the parameter types, so that every exported method of *List, *Dict and
+// *Set — including ones added later — can be driven without a hand-written table.
 func goMutate(v starlark.Value, op string, args starlark.Tuple) error {
-	arg := func(i int) starlark.Value {
-		if i < len(args) {
-			return args[i]
+	rv := reflect.ValueOf(v)
+	rt := rv.Type()
+	for i := 0; i < rt.NumMethod(); i++ {
+		if !strings.EqualFold(rt.Method(i).Name, op) {
+			continue
 		}
-		return starlark.MakeInt(i + 77)
-	}
-	switch x := v.(type) {
-	case *starlark.List:
-		switch op {
-		case "append":
-			return x.Append(arg(0))
-		case "clear":
-			return x.Clear()
-		case "setindex":
-			if x.Len() == 0 {
-				return fmt.Errorf("gomutate: empty list")
+		m := rv.Method(i)
+		in, iters, ok := goArgs(m.Type(), v, args)
+		if !ok {
+			break
+		}
+		out := m.Call(in)
+		for _, it := range iters {
+			it.Done()
+		}
+		if len(out) > 0 {
+			if err, isErr := out[len(out)-1].Interface().(error); isErr {
+				return err
 			}
-			return x.SetIndex(0, arg(0))
 		}
-	case *starlark.Dict:
-		switch op {
-		case "setkey":
-			return x.SetKey(arg(0), arg(1))
-		case "delete":
-			_, _, err := x.Delete(arg(0))
-			return err
-		case "clear":
-			return x.Clear()
-		}
-	case *starlark.Set:
-		switch op {
-		case "insert":
-			return x.Insert(arg(0))
-		case "delete":
-			_, err := x.Delete(arg(0))
-			return err
-		case "clear":
-			return x.Clear()
-		}
+		return nil
 	}
 	return fmt.Errorf("gomutate: unsupported %s on %s", op, v.Type())
 }
 
-// GoMutators lists the Go-API mutators of a collection type.
-func GoMutators(v starlark.Value) []string {
-	switch v.(type) {
-	case *starlark.List:
-		return []string{"append", "clear", "setindex"}
-	case *starlark.Dict:
-		return []string{"setkey", "delete", "clear"}
-	case *starlark.Set:
-		return []string{"insert", "delete", "clear"}
+var (
+	tValue    = reflect.TypeOf((*starlark.Value)(nil)).Elem()
+	tIterator = reflect.TypeOf((*starlark.Iterator)(nil)).Elem()
+	tIterable = reflect.TypeOf((*starlark.Iterable)(nil)).Elem()
+	tInt      = reflect.TypeOf(0)
+	tError    = reflect.TypeOf((*error)(nil)).Elem()
+)
+
+// goArgs synthesises arguments for a Go API method from its parameter types.
+func goArgs(mt reflect.Type, recv starlark.Value, args starlark.Tuple) (in []reflect.Value, iters []starlark.Iterator, ok bool) {
+	next := 0
+	arg := func() starlark.Value {
+		if next < len(args) {
+			next++
+			return args[next-1]
+		}
+		next++
+		return starlark.MakeInt(next + 76)
 	}
-	return nil
+	if _, isList := recv.(*starlark.List); isList && mt.NumIn() == 2 && mt.In(0) == tInt {
+		// SetIndex(i, v): index 0, value = first argument
+		if recv.(*starlark.List).Len() == 0 {
+			return nil, nil, false
+		}
+	}
+	for i := 0; i < mt.NumIn(); i++ {
+		switch t := mt.In(i); {
+		case t == tValue:
+			in = append(in, reflect.ValueOf(&[]starlark.Value{arg()}[0]).Elem())
+		case t == tInt:
+			in = append(in, reflect.ValueOf(0))
+		case t == tIterator:
+			it := starlark.NewList([]starlark.Value{arg(), arg()}).Iterate()
+			iters = append(iters, it)
+			in = append(in, reflect.ValueOf(&it).Elem())
+		case t == tIterable:
+			var l starlark.Iterable = starlark.NewList([]starlark.Value{arg(), arg()})
+			in = append(in, reflect.ValueOf(&l).Elem())
+		default:
+			return nil, nil, false
+		}
+	}
+	return in, iters, true
+}
+
+var goMutCache sync.Map // type name -> []string
+
+// GoMutators lists the Go-API mutators of a collection type: every exported
+// method that changes a fresh sample when called with synthesised arguments.
+func GoMutators(v starlark.Value) []string {
+	if c, ok := goMutCache.Load(v.Type()); ok {
+		return c.([]string)
+	}
+	fresh := func() starlark.Value {
+		switch v.(type) {
+		case *starlark.List:
+			return starlark.NewList([]starlark.Value{starlark.MakeInt(1), starlark.MakeInt(2), starlark.MakeInt(3)})
+		case *starlark.Dict:
+			d := starlark.NewDict(2)
+			d.SetKey(starlark.String("a"), starlark.MakeInt(1))
+			d.SetKey(starlark.String("b"), starlark.MakeInt(2))
+			return d
+		case *starlark.Set:
+			s := starlark.NewSet(3)
+			for i := 1; i <= 3; i++ {
+				s.Insert(starlark.MakeInt(i))
+			}
+			return s
+		}
+		return nil
+	}
+	var out []string
+	if fresh() != nil {
+		rt := reflect.TypeOf(v)
+		for i := 0; i < rt.NumMethod(); i++ {
+			name := rt.Method(i).Name
+			mt := rt.Method(i).Type
+			if name == "Freeze" || mt.NumOut() == 0 || mt.Out(mt.NumOut()-1) != tError {
+				continue // a mutator of the Go API reports failure (frozen, iterating) as an error
+			}
+			changed := false
+			for _, a := range []starlark.Tuple{{starlark.String("a"), starlark.MakeInt(5)}, {starlark.MakeInt(1), starlark.MakeInt(5)}, {starlark.MakeInt(55), starlark.MakeInt(56)}} {
+				c := fresh()
+				before := Canon(c)
+				if pv := safeRun(func() { goMutate(c, name, a) }); pv == nil && Canon(c) != before {
+					changed = true
+				}
+			}
+			if changed {
+				out = append(out, strings.ToLower(name))
+			}
+		}
+	}
+	sort.Strings(out)
+	goMutCache.Store(v.Type(), out)
+	return out
 }
 
 // ---------------------------------------------------------------------------
